@@ -42,7 +42,7 @@ REGISTRY = {
     "C03": eval_family([props.gen_C03]),
     "C04": eval_family([props.gen_C04], [props.judge_groups]),
     "C10": eval_family([props.gen_C10, props.gen_bench_subst], [props.judge_pairs, shellprops.judge_shell]),
-    "C11": eval_family([props.gen_C11, props.gen_C11_big, props.gen_bench_laws], [props.judge_laws, shellprops.judge_shell]),
+    "C11": eval_family([props.gen_C11, props.gen_C11_big, props.gen_bench_laws, props.gen_library_coincidence], [props.judge_laws, shellprops.judge_shell]),
     "C12": eval_family([props.gen_C12, props.gen_bench_patterns], [props.judge_pairs, props.judge_laws, shellprops.judge_shell]),
     "C13": eval_family([props.gen_C13], [props.judge_laws]),
     "C15": eval_family([props.gen_C15], [props.judge_groups]),
@@ -79,6 +79,8 @@ def describe_case(case):
         d = {"format": f[0], "model": gen.unhx(f[1]), "formula_file": gen.unhx(f[2]), "print_option": f[3], "context": f[4]}
     elif k == "CONV":
         d = {"network": gen.unhx(f[0])}
+    elif k == "LIBR":
+        d = {"network": gen.unhx(f[0][2:])[:400], "s": gen.unhx(f[1]), "t": gen.unhx(f[2])}
     elif k == "LOADF":
         d = {"file": gen.unhx(f[0])}
     elif k == "LABEL":
